@@ -21,6 +21,7 @@ from .annotate import Undecided
 
 KANI_FLAGS = ['-Z', 'function-contracts', '-Z', 'stubbing', '-Z', 'unstable-options', '--harness-timeout', os.environ.get('VERIF_KANI_HARNESS_TIMEOUT', '600')]
 REJECTED_INFO = {}
+NATIVE_STRING_SERDE = {}
 
 
 class Harness:
@@ -621,7 +622,7 @@ def h_deserialize(d: Decl, props, bounded=None, concrete=None, only_protocol=Fal
             mode = '        let mode: u8 = 0;\n        let ok: bool = kani::any();\n'
     else:
         val = '        let raw: String = String::from(%s);\n' % concrete[0]
-        mode = '        let mode: u8 = %d;\n        let ok: bool = %s;\n' % (concrete[1], concrete[2])
+        mode = '        let mode: u8 = %d;\n        let ok: bool = %s;\n        unsafe { sfmt::STR_SHAPE = %d; }\n' % (concrete[1], concrete[2], concrete[4] if len(concrete) > 4 else 0)
     body = (sym_setup(d) + val + mode +
             '        unsafe { sfmt::EXPECT_NAME = "%s"; sfmt::NEWTYPE_CALLS = 0; sfmt::SEEN_NAME_OK = false; }\n' % d.name +
             '        let r = <%s as serde::Deserialize>::deserialize(sfmt::Fmt { v: raw%s, ok, mode });\n' % (S, '.clone()' if d.family == 'string' else '') +
@@ -1324,13 +1325,16 @@ def harnesses_for(prop, tier, seed):
         B = 'bounded: concrete string documents only (symbolic strings do not finish in CBMC)'
         for d in sdecls:
             if prop == 'C04':
-                for lit, mode, ok, tag in [('" a "', 0, 'true', 'valid, needs trim'), ('"abc"', 0, 'true', 'too long'), ('"x"', 0, 'false', 'inner fails'), ('"x"', 1, 'true', 'protocol violation')]:
-                    hs.append(h_deserialize(d, [prop], bounded=B, concrete=(lit, mode, ok, tag)))
+                for lit, mode, ok, tag, shape in [('" a "', 0, 'true', 'valid, needs trim', 0), ('"abc"', 0, 'true', 'too long', 0), ('"x"', 0, 'false', 'inner fails', 0),
+                                                   ('"x"', 1, 'true', 'protocol violation', 0), ('" a "', 0, 'true', 'text handed over as &str', 1),
+                                                   ]:
+                    hs.append(h_deserialize(d, [prop], bounded=B, concrete=(lit, mode, ok, tag, shape)))
             else:
                 hs.append(h_serialize(d, [prop], concrete=('" ab "', 'ab'), bounded=B))
                 hs.append(h_roundtrip_string(d, [prop], '"\\"a"', 'text with a quote', B))
                 hs.append(h_roundtrip_string(d, [prop], '"x"', 'x', B))
         decls = decls + sdecls
+        NATIVE_STRING_SERDE[prop] = sdecls
     elif prop == 'C05':
         from .kani_serde import serde_items_expanded
         decls = guard_decls(tier)
@@ -1761,6 +1765,27 @@ def kani_part(out, prop, tier, seed):
         kani_run_harnesses(out, prop, prop + 'r', dd, rel, extra_items=extra, release_like=True)
     if prop == 'C09':
         string_arbitrary_exploration(out, tier)
+    if prop in NATIVE_STRING_SERDE:
+        # String documents whose text arrives as UTF-8 bytes (MessagePack `bin`) or through serde_json with
+        # escapes: run natively against the real code (bounded, labelled); CBMC times out on UTF-8 validation
+        from . import witness
+        from .main import PROP_ENTRIES
+        n = 0
+        for d in NATIVE_STRING_SERDE[prop]:
+            try:
+                wit, wlog = witness.run_witness(d)
+            except Exception as e:
+                wit, wlog = None, repr(e)
+            if wit is None:
+                out.undecided.append('%s: native serde run did not build: %s' % (d.id, (wlog or '')[-200:]))
+                continue
+            n += 1
+            bad = [w for w in wit if w.get('entry') in PROP_ENTRIES.get(prop, ())]
+            if bad:
+                out.failed.append({'key': '%s::%s(native run, bounded)' % (d.id, bad[0]['entry']), 'backend': 'concrete run (bounded)',
+                                   'message': 'real code disagrees with the reference on a concrete document', 'detail': json.dumps(bad[:3]),
+                                   'decl': d.id, 'decl_obj': d, 'witness': bad})
+        out.bounded.append('String serde: %d declarations run natively on JSON documents (escapes, nesting) and on newtype structs around UTF-8 bytes (bounded)' % n)
 
 
 def warm():
